@@ -53,6 +53,7 @@ func (u *decodeUnit) cycle(cycle int, app risc.Application) {
 	}
 
 	for {
+		u.ctx.VerifTick(5, cycle)
 		if !u.outBus.CanAdd() {
 			log.Infou(u.ctx, "DU", "can't add")
 		}
